@@ -1,5 +1,7 @@
 import CoercionModel.Model.Fix
 import CoercionModel.Props.C09
+import CoercionModel.Proofs.Flush
+import CoercionModel.Generated.F9
 set_option linter.unusedSimpArgs false
 /-
   C10 — Recovery converges to the same consistent terminal outcome.
@@ -17,6 +19,10 @@ set_option linter.unusedSimpArgs false
   Running, and groups never are). Both are known findings, not small repairs.
   Repaired by a `fix:` commit: D25 (repairs were kept in memory; a second crash could strand a Running
   sequence under a Completed block).
+  D27 (05cb03a): the flush (`writeEverything`) wrote parents before children, one transaction each; a
+  crash inside Recovery's flush left a Completed sequence over a Running action. Model/Flush +
+  `flush_prefix_safe`: with the children-first order of the repaired code (fact F9) every crash point
+  inside a flush leaves storage in a state recovery can still repair; `parents_first_unsafe` is the old order.
   Tie: harness/crash_test.go — every write prefix (and double cuts) recovered for real; monitors C10.*.
 -/
 namespace Coercion.C10
@@ -74,6 +80,40 @@ theorem fixSeq_running_shape (q : Sequence) (h : (fixSeq q).status = .running) (
   split at h
   · simp at h
   · rename_i hf; simpa using hf
+
+/-! ### crashes inside the flush (Model/Flush) -/
+
+/-- the order in which `writeEverything` issues its writes, read off sm.go on every run: the walk, reversed -/
+theorem facts_flush_order : Generated.F9.flushOrder = "reverse-walk" := by decide
+
+/-- … and the reversed walk writes every object before its parent, for every plan -/
+theorem flush_is_children_first (p : Plan) : Flush.ChildrenFirst (Flush.flushNodes p) :=
+  Flush.flushNodes_childrenFirst p
+
+/-- A crash after ANY prefix of the flush leaves storage Good (nothing Running under a durably final
+    parent — the objects recovery never looks at again), provided memory and the previous storage were
+    Good, ids are distinct, and durably final objects are not rewritten to something else (C08). -/
+theorem flush_prefix_safe (p : Plan) (done rest : List Flush.Node) (mem dur : Flush.Store)
+    (hsplit : Flush.flushNodes p = done ++ rest) (hnd : ((Flush.flushNodes p).map (·.id)).Nodup)
+    (hm : Flush.Good (Flush.flushNodes p) mem) (hd : Flush.Good (Flush.flushNodes p) dur)
+    (hstable : ∀ id, Flush.terminal (dur id) → mem id = dur id) :
+    Flush.Good (Flush.flushNodes p) (Flush.after done mem dur) := by
+  have hcf := Flush.flushNodes_childrenFirst p
+  rw [hsplit] at hcf hnd hm hd ⊢
+  exact Flush.prefix_safe done rest mem dur hcf hnd hm hd hstable
+
+/-- the order before the fix (the walk itself, parents first) is refuted by the history of D27: first
+    crash with everything Running, repair finishes the action and its sequence in memory, second crash
+    after the plan, the block and the sequence have been written -/
+theorem parents_first_unsafe :
+    Flush.walkNodes Flush.exPlan = Flush.exOrd ∧
+    Flush.Good Flush.exOrd Flush.exMem ∧ Flush.Good Flush.exOrd Flush.exDur ∧
+    (∀ id, Flush.terminal (Flush.exDur id) → Flush.exMem id = Flush.exDur id) ∧
+    ¬ Flush.Good Flush.exOrd (Flush.after (Flush.exOrd.take 3) Flush.exMem Flush.exDur) :=
+  ⟨Flush.exOrd_is_walk, Flush.parents_first_unsafe⟩
+
+/-- non-vacuity of `flush_prefix_safe`: the same situation under the repaired order is an instance of its hypotheses -/
+example : Flush.flushNodes Flush.exPlan = Flush.exOrd.reverse ∧ ((Flush.flushNodes Flush.exPlan).map (·.id)).Nodup := by decide
 
 /-! ### non-vacuity -/
 example : NothingFailed { pre := some .completed, blocks := [.completed, .running, .notStarted] } := by
